@@ -429,6 +429,20 @@ func Verif_c25_expand() {
 			dollarCont = true
 		}
 	}
+	// a line continuation between the ':' and the operator character of ${a:-b}
+	colonCont := false
+	for i := 0; i+2 < len(s); i++ {
+		if s[i] == ':' && s[i+1] == '\\' && s[i+2] == '\n' {
+			for k := 0; k+1 < i; k++ {
+				if s[k] == '$' && s[k+1] == '{' {
+					colonCont = true
+				}
+			}
+		}
+	}
+	if verifKnown("C25-continuation-after-colon", colonCont) {
+		return
+	}
 	if verifKnown("C25-continuation-after-dollar", dollarCont) {
 		return
 	}
